@@ -5,6 +5,7 @@ import (
 	"encoding/hex"
 	"encoding/json"
 	"fmt"
+	"github.com/ethereum/go-ethereum/common"
 	"math/big"
 	"os"
 	"runtime"
@@ -97,6 +98,7 @@ type scn struct {
 	kvAddr                          *types.Address    // address of the deployed WASM storage contract (nil if not deployed)
 	kvSeq                           int
 	funded                          map[string]bool   // accounts that exist with a balance (the API reader only polls those)
+	evmStore                        *common.Address   // address of the EVM storage contract, once a deployment was issued
 	outsiderProposals               []string          // ids of the proposals the outsider's own successful calls returned
 	setupOccupancy                  map[string]string // role manager's "occupy-account-<addr>" records as the prologue left them (state key -> value)
 	relaySet                        map[int]bool      // validator indexes in the trust root currently stored for the other BitXHub (observed)
